@@ -108,6 +108,8 @@ class Instance:
 
     __owner_builder: Optional[CodeBuilder] = None
     __self_builder: Optional[CodeBuilder] = None
+    # the named tuple or TypedDict whose member is being described
+    __forward_ref_owner: Optional[Type] = None
 
     # Original type despite custom serialization. To be revised.
     _original_type: Type = field(init=False)
@@ -150,13 +152,19 @@ class Instance:
 
     def derive(self, **changes: Any) -> "Instance":
         new_type = changes.get("type")
+        owner = self.__forward_ref_owner
+        if is_named_tuple(self.origin_type) or is_typed_dict(self.origin_type):
+            owner = self.type
         if isinstance(new_type, ForwardRef):
             changes["type"] = evaluate_forward_ref(
                 new_type,
-                get_forward_ref_referencing_globals(new_type, self.type),
+                get_forward_ref_referencing_globals(
+                    new_type, owner or self.type
+                ),
                 self.__dict__,
             )
         new_instance = replace(self, **changes)
+        new_instance.__forward_ref_owner = owner
         if is_dataclass(self.origin_type):
             new_instance.__owner_builder = self.__self_builder
         return new_instance
